@@ -93,6 +93,13 @@ def dmrg_case(ctx, idx, rng, force=None):
         if force:
             L = force['L']
         H = gen.model(src, L, gen.generic_params(rng))
+    shift = ''
+    if idx % 4 == 1 and not force and int(H.qD[0][0]) == 0 and int(H.qD[-1][0]) == 0 and len(H.qD[0]) == 1 and len(H.qD[-1]) == 1:
+        # the same operator with its spectrum moved far up or down (H + c 1, |c| = 2..5 ||H||): all-positive / all-negative spectra -- an energy that
+        # is rescaled, or compared in magnitude, behaves differently on the two sides of zero
+        c = float(rng.choice([-1, 1])) * float(rng.uniform(2, 5)) * max(1.0, float(np.linalg.norm(refs.dense_operator(H.A), 2)))
+        H = gen.shifted_operator(H, c)
+        shift = '+shifted-up' if c > 0 else '+shifted-down'
     prof = str(rng.choice(['random', 'random', 'one', 'max', 'over']))
     if force:
         prof = force['prof']
@@ -127,6 +134,10 @@ def dmrg_case(ctx, idx, rng, force=None):
         numiter = int(dloc + int(rng.integers(0, 12)))
         nsweeps = int(rng.integers(3, 6))
         tol_split = 0.0
+        if two and shift:
+            # converged AND truncating on a spectrum far from zero: a reported energy that is off by the discarded weight w is off by w |c|, far more than the
+            # distance of the truncated state from the ground state
+            tol_split = float(rng.choice([0.0, 1e-3, 0.05]))
         conv = '+converging' + ('+symmetric-sector' if force else '')
     mH = refs.dense_operator(H.A)
     nH = max(np.linalg.norm(mH, 2), 1.0)
@@ -136,7 +147,7 @@ def dmrg_case(ctx, idx, rng, force=None):
     D_in = list(psi.bond_dims)
     ends = (psi.qD[0].copy(), psi.qD[-1].copy())
     integ = 'twosite' if two else 'singlesite'
-    ctx.case((integ, src, f'L{L}', prof + conv, f'numiter{numiter}' if not conv else 'numiter>=local-dim', f'sweeps{min(nsweeps, 2)}', 'tol_split0' if tol_split == 0 else 'tol_split>0'),
+    ctx.case((integ, src + shift, f'L{L}', prof + conv, f'numiter{numiter}' if not conv else 'numiter>=local-dim', f'sweeps{min(nsweeps, 2)}', 'tol_split0' if tol_split == 0 else 'tol_split>0'),
              sample={'algorithm': integ, 'model': src, 'L': L, 'qD': psi.qD, 'sweeps': nsweeps, 'numiter': numiter, 'tol_split': tol_split},
              info={'algorithm': integ, 'model': src, 'L': L, 'qd': H.qd, 'qD': psi.qD, 'A': psi.A, 'H_A': H.A, 'H_qD': H.qD, 'sweeps': nsweeps, 'numiter': numiter, 'tol_split': tol_split})
     detail = ctx.cur_info
